@@ -756,7 +756,7 @@ spif_ustr_sprintf(spif_ustr_t self, spif_charptr_t format, ...)
         va_start(ap, format);
         c = vsnprintf(buff, sizeof(buff), format, ap);
         va_end(ap);
-        if (c <= 0) {
+        if ((c <= 0) || (c == INT_MAX)) {
             return FALSE;
         } else {
             self->size = c + 1;
